@@ -34,6 +34,10 @@ def _acc_stmts(name, allow_protected):
          (f"public {name}", "public"), (f"Private::{name}", "private")]
     if allow_protected:
         o.append((f"protected :: {name}", "protected"))
+    if "(" in name:
+        # generic specs may be written with a blank before the parenthesis, in the access statement too
+        blank = name.replace("(", " (")
+        o += [(f"public :: {blank}", "public"), (f"private :: {blank}", "private"), (f"PRIVATE {blank.upper()}", "private")]
     return o
 
 
@@ -53,6 +57,8 @@ KINDS = {
                           "interfaces", "x", False),
     "operator-interface": ([], [("interface operator(+)", None), ("interface operator (+)", None)],
                            ["module procedure xp", "end interface"], "interfaces", "operator(+)", False),
+    "assignment-interface": ([], [("interface assignment(=)", None), ("interface assignment (=)", None), ("INTERFACE ASSIGNMENT(=)", None)],
+                             ["module procedure xp", "end interface"], "interfaces", "assignment(=)", False),
     "abstract-interface": (["abstract interface"], [("subroutine x()", None), ("SUBROUTINE X( )", None)],
                            ["end subroutine x", "end interface"], "absinterfaces", "x", False),
 }
@@ -114,8 +120,10 @@ def _module_ob(kind):
                 # known finding: a bare default statement AFTER the declaration of an entity without explicit access
                 E.assume(choice.apply(lambda l, k: not (l is not None and k == 0), d1, na))
             if h.excl[1]:
-                # known finding: `interface operator (+)` (blank before the parenthesis) named by an access statement
-                E.assume(choice.apply(lambda t, x, y: not (" (" in t and (x or y)), ht, a0, a1))
+                # known finding: the generic spec is spelled with a blank before the parenthesis in the interface statement
+                # and without it in the access statement, or the other way round (the same spelling on both sides works)
+                E.assume(choice.apply(lambda t, s0, s1, x, y: not ((x and (" (" in t) != (" (" in s0)) or (y and (" (" in t) != (" (" in s1))),
+                                      ht, a0t, a1t, a0, a1))
             if proc:
                 prog = ["module m", d0t, a0t, a1t, d1t, "contains", ht] + post + ["end module m"]
             else:
@@ -136,7 +144,7 @@ def _module_ob(kind):
                 pass
 
         kf_late = ctx.known("C04-late-default", replay_access)
-        kf_opblank = ctx.known("C04-operator-blank", replay_access) if kind == "operator-interface" else None
+        kf_opblank = ctx.known("C04-operator-blank", replay_access) if kind in ("operator-interface", "assignment-interface") else None
         h.excl = (bool(kf_late), bool(kf_opblank))
         E = sym.Engine(ctx, max_paths=20000, incremental=True)
         found = E.explore(h)
